@@ -199,11 +199,13 @@ void build_object(osmium::memory::Buffer& buf, const Obj& o) {
 }
 
 // PBF through the library's own Writer (run before any exploration, on real threads): one block per call
-void write_pbf(const std::string& path, const std::vector<Obj>& d, bool dense, const char* compression = "none") {
+void write_pbf(const std::string& path, const std::vector<Obj>& d, bool dense, const char* compression = "none", bool sorted_flag = false) {
     osmium::io::File f{path, "pbf"};
     f.set("pbf_dense_nodes", dense);
     f.set("pbf_compression", compression);
-    osmium::io::Writer w{f, osmium::io::overwrite::allow};
+    osmium::io::Header hdr;
+    if (sorted_flag) hdr.set("sorting", "Type_then_ID");      // optional feature Sort.Type_then_ID in the header block (the data sets are sorted)
+    osmium::io::Writer w{f, hdr, osmium::io::overwrite::allow};
     for (size_t i = 0; i < d.size(); i += 2) {
         osmium::memory::Buffer buf{4096, osmium::memory::Buffer::auto_grow::yes};
         for (size_t k = i; k < std::min(d.size(), i + 2); ++k) build_object(buf, d[k]);
